@@ -28,9 +28,18 @@ def main():
     except common.Timeout:
         print("time-out", file=sys.stderr)
         return 2
-    except Exception:
-        traceback.print_exc()
-        return 2
+    except Exception:  # noqa: BLE001
+        # The harness could not complete against this tree (typically: an internal entry point it drives was renamed
+        # or changed shape). That is a broken correspondence, not by itself a violation: concrete failures found so far
+        # are reported as such; otherwise the verdict is "no longer shown to hold" (no-failing-input-found).
+        tb = traceback.format_exc()
+        print(tb, file=sys.stderr)
+        ctx.obligation("correspondence:harness-completed", "correspondence", False, tb)
+        try:
+            return common.finish(ctx)
+        except Exception:  # noqa: BLE001
+            traceback.print_exc()
+            return 2
 
 
 if __name__ == "__main__":
